@@ -108,8 +108,8 @@ class C14(Prop):
         ("lib/python/pyflyby/_util.py", "Aspect.unadvise"),
     ]
     parallel = False             # the shells live in the lab's own processes
-    quick_cases = 350
-    thorough_cases = 2600
+    quick_cases = 800
+    thorough_cases = 12000
     quick_deadline_s = 70
     thorough_deadline_s = 780
     rule = ("op sequences of length <= 6 over {enable, enable_again(=enable(even_if_previously_errored=True) via the shell), "
